@@ -24,7 +24,7 @@ const (
 func VerifC07_Bind() {
 	verifExpect("bound", "refused")
 	e := newSvEnv(false)
-	zero, one, w := big.NewInt(0), big.NewInt(1), verifPow2(64)
+	zero, one, w := big.NewInt(0), big.NewInt(1), verifAmt(64)
 	defined := verifChoice("defined", 2) == 1
 	if defined {
 		if err := e.k.AddServiceDefinition(e.ctx, svService, "desc", []string{"t1"}, e.owner2, "author", svSchemas); err != nil {
@@ -54,7 +54,7 @@ func VerifC07_Bind() {
 	b2 := types.NewServiceBinding(svService, e.p2, svCoins(svDenom, others.Add(sdkmath.OneInt())), `{"price":"1stake"}`, 5, "{}", true, time.Time{}, e.owner2)
 	e.k.SetServiceBinding(e.ctx, b2)
 	e.bank.fund(vModuleAddr(types.DepositAccName), svDenom, priorDep.Add(others).Add(sdkmath.OneInt()))
-	e.bank.fund(e.owner, svDenom, verifIntIn("ownerWallet", zero, verifPow2(66)))
+	e.bank.fund(e.owner, svDenom, verifIntIn("ownerWallet", zero, verifAmt(66)))
 	e.bank.fund(e.owner, svDenom2, sdkmath.NewInt(1_000_000))
 	amt := verifIntIn("deposit", one, w)
 	depDenom := svDenom
